@@ -19,30 +19,23 @@ from props import _synctree as T
 
 
 def run(ctx):
-    # ---- 1. design ------------------------------------------------------------------------------
+    import concurrent.futures
+    pool = concurrent.futures.ThreadPoolExecutor(max_workers=4)
+
+    # ---- 1. design (TLC jobs run concurrently with the Go build and the real executions) ---------
     cfg = ctx.pick("SyncDir_mc.cfg", "SyncDir_mc_thorough.cfg")
-    mc = tlc.run(ctx, "SyncDir", cfg, coverage=False, workers=ctx.pick(8, 16), timeout=ctx.pick(900, 3000),
-                 heap=ctx.pick("6g", "12g"))
-    if not mc.ok:
-        raise InfraError("spec-level counterexample in SyncDir/%s: %s" % (cfg, mc.summary()))
-    ctx.log("TLC SyncDir/%s: %d distinct states, %.0fs" % (cfg, mc.distinct, mc.wall))
-    # vacuity: coverage on the small config (cheap), plus two monitors that MUST be violated
-    cov = tlc.run(ctx, "SyncDir", "SyncDir_cov.cfg", coverage=True, workers=4, timeout=600, name="tlc_cov")
-    if not cov.ok:
-        raise InfraError("spec-level counterexample in SyncDir_cov.cfg: %s" % cov.summary())
-    tlc.require_coverage(cov, ["Check", "ChangeOne", "Glob", "DeleteOne", "Finish"])
-    for vcfg, inv in (("SyncDir_vac1.cfg", "NoFailClosedRun"), ("SyncDir_vac2.cfg", "NoRemovalFailure")):
-        v = tlc.run(ctx, "SyncDir", vcfg, workers=2, timeout=300, name="tlc_" + inv)
-        if not (v.kind == "invariant" and v.name == inv):
-            raise InfraError("vacuity guard: %s was expected to be violated (%s)" % (inv, v.summary()))
+    f_mc = pool.submit(tlc.run, ctx, "SyncDir", cfg, coverage=False, workers=ctx.pick(6, 12),
+                       timeout=ctx.pick(900, 3000), heap=ctx.pick("6g", "12g"))
+    f_cov = pool.submit(tlc.run, ctx, "SyncDir", "SyncDir_cov.cfg", coverage=True, workers=2, timeout=600, name="tlc_cov")
+    f_tree = pool.submit(T.tree_design, ctx)
 
     # ---- 2. conformance on the real code --------------------------------------------------------
     rnd = random.Random(ctx.seed)
     dom = S.Domain(S.cfg_constants("TraceSyncDir.cfg"))
-    runs = ctx.pick(4, 6)
+    runs = ctx.pick(3, 5)
     cases = S.all_cases_small(dom, runs, 1, rnd)
     n_enum = len(cases)
-    nrand = ctx.pick(2500, 120000)
+    nrand = ctx.pick(1500, 40000)
     for i in range(nrand):
         cases.append(S.sample_case(dom, rnd, i, runs, nmanaged=rnd.choice([2, 3, 3])))
     binary = goharness.ext_test_build(ctx, "syncdir")
@@ -61,8 +54,9 @@ def run(ctx):
         r["outs"] = [o for o in r["outs"] if not o.get("panic")]
         lines.append(S.strip_for_tlc(r))
     controls = S.corrupted_controls(obs, rnd, 12)
-    verdicts = S.tlc_judge(ctx, "TraceSyncDir", "TraceSyncDir.cfg", lines + controls, ctx.pick(4, 12))
+    verdicts = S.tlc_judge(ctx, "TraceSyncDir", "TraceSyncDir.cfg", lines + controls, ctx.pick(3, 10))
     vreal, vctl = verdicts[:len(lines)], verdicts[len(lines):]
+    ctx.log("TLC judged %d cases" % len(lines))
 
     for c, v in zip(controls, vctl):
         if any(v["member"]) or any(v["post"]):
@@ -98,17 +92,38 @@ def run(ctx):
         if len(samples) < 5 and (len(r["outs"]) > 1 or len(samples) < 2):
             samples.append({"init": r["init"], "des": r["des"], "real_outcomes": r["outs"], "admissible": v["nadm"]})
 
-    # ---- 3. EnsureTreeState + security backends -------------------------------------------------
+    # ---- 3. EnsureTreeState, then the apparmor / seccomp backends end to end ---------------------------------------------------------------------
     tree = T.run_tree(ctx, binary, rnd)
     violations += tree["violations"]
     drift += tree["drift"]
 
+    be = T.run_backends(ctx)
+    violations += be["violations"]
+    drift += be["drift"]
+
+    # ---- 4. join the design jobs ----------------------------------------------------------------
+    mc, cov, tmc = f_mc.result(), f_cov.result(), f_tree.result()
+    pool.shutdown()
+    if not mc.ok:
+        raise InfraError("spec-level counterexample in SyncDir/%s: %s" % (cfg, mc.summary()))
+    ctx.log("TLC SyncDir/%s: %d distinct states, %.0fs" % (cfg, mc.distinct, mc.wall))
+    if not cov.ok:
+        raise InfraError("spec-level counterexample in SyncDir_cov.cfg: %s" % cov.summary())
+    tlc.require_coverage(cov, ["Check", "ChangeOne", "Glob", "DeleteOne", "Finish"])
+    if not ctx.quick:   # monitors that MUST be violated: fail-closed runs and removal-only failures exist in the spec
+        for vcfg, inv in (("SyncDir_vac1.cfg", "NoFailClosedRun"), ("SyncDir_vac2.cfg", "NoRemovalFailure")):
+            v = tlc.run(ctx, "SyncDir", vcfg, workers=2, timeout=300, name="tlc_" + inv)
+            if not (v.kind == "invariant" and v.name == inv):
+                raise InfraError("vacuity guard: %s was expected to be violated (%s)" % (inv, v.summary()))
+
     if not violations and drift:
         raise InfraError("conformance drift: %d real outcome(s) satisfy the statement but are not admitted by "
-                         "SyncDir.tla (the spec no longer models the code; triage), e.g. %s" % (len(drift), drift[0]))
+                         "SyncDir.tla/SyncTree.tla (the spec no longer models the code; triage), e.g. %s" % (len(drift), drift[0]))
     for need in ("ok", "err/writefail", "err"):
         if classes.get(need, 0) == 0 and not violations:
             raise InfraError("vacuity guard: no real outcome of class %r" % need)
+    tree["coverage"].update({"tlc_config": tmc["cfg"], "tlc_states": tmc["mc"].distinct,
+                             "tlc_transitions": tmc["mc"].generated, "tlc_wall_s": round(tmc["mc"].wall, 1)})
 
     return Result(
         level="model_checking",
@@ -116,8 +131,8 @@ def run(ctx):
             "states": mc.distinct, "transitions": mc.generated, "tlc_wall_s": round(mc.wall, 1),
             "tlc_config": cfg, "tlc_constants": S.cfg_constants(cfg),
             "action_coverage_small_config": tlc.coverage_summary(cov),
-            "traces_validated_against_impl": len(cases) + tree["cases"],
-            "real_executions": execs + tree["execs"],
+            "traces_validated_against_impl": len(cases) + tree["cases"] + be["cases"],
+            "real_executions": execs + tree["execs"] + be["cases"],
             "cases_enumerated_exhaustively_1name": n_enum, "cases_sampled": nrand,
             "real_outcome_classes": classes,
             "distinct_real_outcomes": len(distinct_out),
@@ -125,6 +140,7 @@ def run(ctx):
             "cases_where_several_outcomes_were_observed": multi_seen,
             "binding_negative_controls_rejected": len(controls),
             "tree": tree["coverage"],
+            "security_backends_end_to_end": be["observations"],
             "samples": samples,
         },
         assumptions=[
